@@ -334,6 +334,22 @@ def condG (c : Opnd) : Res Unit :=
 def retG (results : List STy) (vals : List (Shape × Opnd)) : Res Unit :=
   if allAssignableG results (vals.map (·.2)) then .ok () else .err
 
+/-- Composite literals, array and slice types: "each element has an associated integer index … an element without a key
+    uses the previous element's index plus one (zero for the first)"; keys are non-negative constants, every index of an
+    array literal is below the length (`bound`), no two elements have the same index -/
+def arrayLitG (bound : Option Nat) : List LitElem → (index : Nat) → (vis : List Nat) → Res Unit
+  | [], _, _ => .ok ()
+  | e :: rest, index, vis =>
+    let idx? : Option Nat := match e with
+      | .keyed k => if k < 0 then none else some k.toNat
+      | .pos => some index
+    match idx? with
+    | none => .err
+    | some idx =>
+      if (match bound with | some n => decide (idx ≥ n) | none => false) then .err
+      else if vis.contains idx then .err
+      else arrayLitG bound rest (idx + 1) (idx :: vis)
+
 def rulesG : Rules :=
   { un := unG, recv := recvG, bin := binG, cmp := cmpG, shift := shiftG, conv := convG, assert := assertG, index := indexG,
     call := callG, callValue := callValueG, assign := assignG, define := defineG, opassign := opassignG,
